@@ -20,6 +20,8 @@ CONSTANTS
   Coarse = FALSE
 SPECIFICATION Spec
 INVARIANT TypeOK
+INVARIANT Owns
+PROPERTY Isolation
 INVARIANT NeverStale
 INVARIANT QueryTotal
 INVARIANT CleanMeansCurrent
